@@ -1,0 +1,6 @@
+//go:build !verif
+
+package dvid
+
+// VerifPoint is a no-op unless built with the "verif" tag.
+func VerifPoint(site string, id uint64) {}
